@@ -30,6 +30,9 @@ type c14Case struct {
 	Extra    []hfield
 	Interim  bool
 	CEnc     string
+	// HeadPause: the backend sends its header block at once but the first body
+	// byte only this much later
+	HeadPause time.Duration
 }
 
 const bannerHTML = `<b id="bnr">BANNER-7f3a</b>`
@@ -105,6 +108,7 @@ func genC14(t *sim.Tape, i int) *c14Case {
 	c.Pause = []time.Duration{0, time.Millisecond, 150 * time.Millisecond}[t.Choice(3, "pause")]
 	c.Extra = []hfield{{"X-Custom", "keep-me"}, {"Set-Cookie", "a=1"}, {"Set-Cookie", "b=2"}}
 	c.Interim = t.Rare(1, 5, "interim")
+	c.HeadPause = []time.Duration{0, 0, 0, 2500 * time.Millisecond}[t.Choice(4, "headpause")]
 	// the body may be declared as encoded (the bytes are opaque to the agent)
 	c.CEnc = []string{"", "", "", "gzip", "br"}[t.Choice(5, "cenc")]
 	if c.CEnc != "" {
@@ -163,6 +167,9 @@ func worldC14(w *World) {
 		}
 		fmt.Fprintf(&b, "Content-Length: %d\r\n\r\n", len(cs.Body))
 		c.Write(b.Bytes())
+		if cs.HeadPause > 0 {
+			time.Sleep(cs.HeadPause)
+		}
 		off := 0
 		for _, p := range cs.Pieces {
 			if off >= len(cs.Body) {
@@ -255,6 +262,9 @@ func worldC14(w *World) {
 			fmt.Sscanf(m.StartLine, "HTTP/1.1 %d", &code)
 			if cs.Interim {
 				w.Probe("interim_1xx")
+			}
+			if cs.HeadPause > 0 && cs.isHTML() {
+				w.Probe("html_body_starts_late")
 			}
 			if code != cs.Status {
 				w.Violation("status", "status changed | backend %d client %d (interim 1xx before it: %v)", cs.Status, code, cs.Interim)
